@@ -5,8 +5,9 @@ import vlib
 
 SRC = 'harness/c02_decode.cpp'
 # second binary: the Reader's file input arrives in 8-byte pieces (hook H3), so that short
-# files / short final datasets also meet the parsers' refill paths
-PIECES = ['OSMIUM_VERIF_INPUT_BUFFER_SIZE=8']
+# files / short final datasets also meet the parsers' refill paths; its parsers also start with
+# tiny output buffers (hook H4), so that every decoder's buffer has to grow in the middle of objects
+PIECES = ['OSMIUM_VERIF_INPUT_BUFFER_SIZE=8', 'OSMIUM_VERIF_PARSER_BUFFER_SIZE=4096', 'OSMIUM_VERIF_PBF_BUFFER_SIZE=1024']
 
 
 def builds(tier):
@@ -40,7 +41,7 @@ def run(chk):
     via = ['--via', 'file']
     part(pieces, 'o5m_tiny', 2000 if T else 300, 'o5m/o5c tiny files read from disk in 8-byte pieces', 'c02j', extra=via, timeout=3600)
     part(pieces, 'o5m', 1000 if T else 100, 'o5m/o5c read from disk in 8-byte pieces', 'c02k', extra=via, timeout=3600)
-    part(pieces, 'pbf', 1000 if T else 100, 'PBF read from disk (fd path of the PBF parser)', 'c02l', extra=via, timeout=3600)
+    part(pieces, 'pbf', 2000 if T else 300, 'PBF read from disk (fd path of the PBF parser), decoder buffers of 1 KiB', 'c02l', extra=via, timeout=3600)
     part(pieces, 'xml', 500 if T else 60, 'XML read from disk in 8-byte pieces', 'c02m', extra=via, timeout=3600)
     part(pieces, 'opl', 500 if T else 60, 'OPL read from disk in 8-byte pieces', 'c02n', extra=via, timeout=3600)
     chk.assumptions = [
